@@ -558,7 +558,7 @@ func (pid *PID) Child(name string) (*PID, error) {
 	childAddress := pid.childAddress(name)
 	if cidNode, ok := pid.actorSystem.tree().node(childAddress.String()); ok {
 		cid := cidNode.value()
-		if cid.IsRunning() {
+		if cid != nil && cid.IsRunning() {
 			return cid, nil
 		}
 	}
@@ -3510,7 +3510,8 @@ func (pid *PID) findRunningChild(tree *tree, childAddress string) (*PID, bool) {
 	}
 
 	cid := cnode.value()
-	if !cid.IsRunning() {
+	// the node may be cleared by a concurrent deleteNode (death watch)
+	if cid == nil || !cid.IsRunning() {
 		return nil, false
 	}
 	return cid, true
